@@ -232,9 +232,21 @@ pub fn run_case(c: &Case) -> Observed {
     let empty: Vec<Word> = vec![];
     let p0v: &[Word] = c.parent.as_deref().unwrap_or(&empty);
     let refs: [(&str, &[Word]); 3] = [("s0", &c.stack), ("m0", &c.memory), ("p0", p0v)];
-    let obs = format!("(Build_obs {} {} {} {} {} {} {} {} {} {})", res, vm.pc, rel_expr(&stack, &refs), rel_expr(&memory, &refs),
+    // Vm::eval_ops from the same state
+    let cost3 = c.cost.clone();
+    let cost_fn3 = move |op: &Op| cost3.of(op);
+    let log3: ReadLog = Arc::new(Mutex::new(vec![]));
+    let state3 = (ScriptView { log: log3.clone(), ..pre.clone() }, ScriptView { log: log3.clone(), ..post.clone() });
+    let mut vm4 = mk_vm();
+    let eval = match catch_unwind(AssertUnwindSafe(|| vm4.eval_ops(&c.ops, access.clone(), &state3, &cost_fn3, limit))) {
+        Ok(Ok(false)) => 0, Ok(Ok(true)) => 1,
+        Ok(Err(essential_vm::error::EvalError::InvalidEvaluation(_))) => 2,
+        Ok(Err(essential_vm::error::EvalError::Exec(_))) => 3,
+        Err(_) => 4,
+    };
+    let obs = format!("(Build_obs {} {} {} {} {} {} {} {} {} {} {})", res, vm.pc, rel_expr(&stack, &refs), rel_expr(&memory, &refs),
         coq_bool(vm.halt), list_of(&rep, |q| format!("({}, {}, {}, {})", z(q.0), q.1, z(q.2), q.3)), steps, cost_sum,
-        list_of(&reads, |r| format!("({}, {}, {}, {})", r.0, blist(&r.1), zlist(r.2.iter().copied()), r.3)), coq_bool(mapped_same));
+        list_of(&reads, |r| format!("({}, {}, {}, {})", r.0, blist(&r.1), zlist(r.2.iter().copied()), r.3)), coq_bool(mapped_same), eval);
 
     // oracle tables
     let view_tbl = |tag: u8| list_of(&reads.iter().filter(|r| r.0 == tag).cloned().collect::<Vec<_>>(), |r| {
